@@ -162,6 +162,9 @@ func gen(t *rapid.T) pairsim.Scenario {
 			sc.Ops[i].NoDeadline = false
 		}
 	}
+	// a server application that tags its notifications with an ETag but not the blocks fetched
+	// afterwards (the oracle here does not look at bodies, so the representation may change meanwhile)
+	sc.PlainFollowUp = rapid.IntRange(0, 3).Draw(t, "plainfollowup") == 0
 	return sc
 }
 
